@@ -160,7 +160,15 @@ Fixpoint rw_stmt (fuel : nat) (s : stmt) {struct fuel} : stmt :=
     | SComponent ln cid n arg slots block =>
       let slots' := map (fun sl => match sl with (sln, sn, b) => (sln, sn, rw b) end) slots in
       match comp_block cid with
-      | Some b => SComponent ln cid n arg slots' (Some b)
+      | Some b =>
+        (* the bodies this use passed sit in the block's placeholders as the page's own nodes (Go: the
+           same pointers), so component uses inside them get their blocks too; the component FILE's
+           own statements are not touched *)
+        SComponent ln cid n arg slots'
+          (Some (map (fun s => match s with
+                               | SSlot sl sn (Some body) => SSlot sl sn (Some (rw body))
+                               | _ => s
+                               end) b))
       | None => SComponent ln cid n arg slots' block
       end
     | SSlot ln n body => SSlot ln n (rwo body)
